@@ -189,9 +189,9 @@ func (i *interpreter) global(g *ssa.Global) *value {
 }
 
 // runPath executes the harness once along the given decision prefix.
-func (ex *Explorer) runPath(prefix []Decision, solver *Solver) (ps *pathState, out Outcome, msg string, funcs map[string]int) {
+func (ex *Explorer) runPath(prefix []Decision, solver *Solver, fallback **Solver) (ps *pathState, out Outcome, msg string, funcs map[string]int) {
 	solver.Reset()
-	ps = &pathState{ex: ex, prefix: prefix, solver: solver, varCnt: map[string]int{}, reached: map[string]bool{}, conc: map[int]uint64{}}
+	ps = &pathState{ex: ex, prefix: prefix, solver: solver, varCnt: map[string]int{}, reached: map[string]bool{}, conc: map[int]uint64{}, condVal: map[int]bool{}, fallback: fallback}
 	i := ex.prog.newInterpreter(ps)
 	out = OutOK
 	func() {
